@@ -320,6 +320,7 @@ def shards(tier):
     for a0 in range(0, 64, 16):
         out.append(("addr_sweep", a0, a0 + 16))
     out += P.partner_shards(PARTNERS)
+    out.append(("declare-between-reads",))
     return out
 
 
@@ -371,7 +372,55 @@ PARTNERED = [("single", "BANK_0", "GTIN", "quick"), ("single", "BANK_1", "Lumina
              ("all", "BANK_0", "device", False, "quick"), ("all", "BANK_1", "gear", True, "quick")]
 
 
+def run_declare_between_reads(res):
+    """A bank is read, a further value is declared on it (the documented extension point: vendor values in the
+    manufacturer-specific area), the bank is read again: the second reading reports exactly the values whose locations are all
+    implemented - the new one included - each as read alone.  Fresh user banks (gear, device, one with a latch)."""
+    from dali.memory.location import MemoryBank, MemoryLocation, MemoryType, NumericValue
+    n = 0
+    # (fresh bank objects of this shard only: the library's own banks are not touched)
+    for number, fam, has_latch, locs in ((9, "gear", False, (0x20, 0x21, 0x22)), (10, "device", False, (0x30,)), (11, "gear", True, (0x18, 0x19))):
+        bank = MemoryBank(number, 0x40, has_latch=has_latch)
+        type("UserFirst", (NumericValue,), {"bank": bank, "locations": (MemoryLocation(0x10, type_=MemoryType.ROM), MemoryLocation(0x11, type_=MemoryType.ROM))})
+        bname = None
+
+        def mkharness():
+            h = MemHarness(fam, "BANK_0", "rnd1", None, [], None, ticks=False, faults=False, sa=9)
+            cells = [0x40, 0x00, 0xFF] + [(7 * i + 3) & 0xFF for i in range(3, 256)]
+            ub = G.MemBank(number, cells, writable=set(), lockable=set(), has_lock=False, has_latch=has_latch)
+            h.unit.banks = {number: ub}
+            h.bank = ub
+            return h
+        case = {"t": "declare-between-reads", "bank": f"user bank {number}", "fam": fam, "latch": has_latch}
+        h = mkharness()
+        k1, v1, _ = G.run_sequence(bank.read_all(h.addr()), h, 900)
+        cls = type("VendorValue%d" % n, (NumericValue,), {"bank": bank, "locations": tuple(MemoryLocation(a, type_=MemoryType.ROM) for a in locs)})
+        h = mkharness()
+        ka, va, _ = G.run_sequence(cls.read(h.addr()), h, 900)
+        want = int.from_bytes(bytes(h.bank.cells[a] for a in locs), "big")
+        h = mkharness()
+        k2, v2, _ = G.run_sequence(bank.read_all(h.addr()), h, 900)
+        n += 1
+        res["evaluations"] += 3
+        if k1 != "return" or k2 != "return" or ka != "return":
+            add_violation(res, "C09:declare-between-reads:raised", f"{case}: read_all {k1} {v1!r}; value alone {ka} {va!r}; read_all again {k2} {v2!r}", case)
+            continue
+        if va != want:
+            add_violation(res, "C09:declare-between-reads:value-alone", f"{case}: {cls.__name__}.read -> {va!r}, stored {want}", case)
+        missing = [c.__name__ for c in list(v1) + [cls] if c not in v2]
+        wrong = [c.__name__ for c in v1 if c in v2 and v1[c] != v2[c]] + ([cls.__name__] if cls in v2 and v2[cls] != va else [])
+        if missing or wrong or len(v2) != len(v1) + 1:
+            add_violation(res, "C09:declare-between-reads:read_all", f"{case}: value {cls.__name__} at {[hex(a) for a in locs]} declared after a first read_all: the second read_all "
+                          f"misses {missing}, differs on {wrong}; it reports {sorted(c.__name__ for c in v2)}", case)
+        res["distinct"].add(("declare-between-reads", number, fam))
+    sample(res, {"declare_between_reads": n})
+
+
 def run_shard(shard):
+    if shard[0] == "declare-between-reads":
+        res = new_result()
+        run_declare_between_reads(res)
+        return res
     if shard[0] == "partnered":
         import sys
         return P.run_partnered(sys.modules[__name__], shard, PARTNERS, PARTNERED)
@@ -462,6 +511,8 @@ def run_shard(shard):
 
 
 def replay(case):
+    if case.get("t") == "declare-between-reads":
+        return run_shard(("declare-between-reads",))["violations"]
     from dalimc.core.explorer import Chooser
     res = new_result()
     if case["t"] == "single":
